@@ -210,14 +210,9 @@ def utf8_encoded(ctx, x):
     """utf8(x) with the facts of the codec documentation that the contracts use (x has no lone surrogate)."""
     if not isinstance(x, SStr):
         return x.encode('utf-8')
+    # facts of the codec that justify the reading but that no obligation needs are left out of the solver's way:
+    #   UTF8R(UTF8ENC(x)) == x (no replacement is ever needed for valid UTF-8), and 0x25 occurs exactly where x has '%'
     r = UTF8ENC(x.t)
-    pct = z3.StringVal(PCT)
-    ctx.assume(mk_bool(z3.And(
-        UTF8R(r) == x.t,  # decoding valid UTF-8 never needs a replacement: the round trip is exact
-        z3.Contains(r, pct) == z3.Contains(x.t, pct),  # multi-byte sequences use bytes >= 0x80 only
-        z3.Length(r) >= z3.Length(x.t),
-        (z3.Length(r) == 0) == (z3.Length(x.t) == 0),
-    )))
     return SStr(r, 'bytes')
 
 
@@ -351,10 +346,17 @@ class hex_table:
 
 
 def f_token(t):
-    """f(t) of the token spec (non-forking)."""
-    k = t[:2]
-    kt, tt = _s(k), _s(t)
-    return z3.If(z3.InRe(kt, _re_hexpair()), z3.Concat(HEXBYTE(kt), _s(t[2:])), z3.Concat(z3.StringVal(PCT), tt))
+    """f(t) of the token spec, named by a definitional constant (one per token and path) so that terms stay small."""
+    ctx = cur()
+    cache = ctx.ghost.setdefault('$f-token', {})
+    key = t.t.get_id()
+    if key not in cache:
+        k = t[:2]
+        kt, tt = _s(k), _s(t)
+        d = ctx.fresh_str('f_token', 'bytes')
+        ctx.assume(mk_bool(d.t == z3.If(z3.InRe(kt, _re_hexpair()), z3.Concat(HEXBYTE(kt), _s(t[2:])), z3.Concat(z3.StringVal(PCT), tt))))
+        cache[key] = (d, t)
+    return cache[key][0].t
 
 
 def spec_tokens(tokens):
@@ -565,7 +567,8 @@ def _decode(v):
     """decode(s, unquote_plus) for every s with k '%' characters, k fixed per harness."""
     k = v.choose(9, 'percents')  # number of '%' in the input: 0..8  (1..9 tokens)
     s = scalar_str(v, 's')
-    mode = v.choose(3, 'unquote_plus')  # 0: False, 1: True, 2: omitted (documented default True)
+    # 0: False, 1: True, 2: omitted (documented default True; argument binding only, so explored for 0 and 1 '%' only)
+    mode = v.choose(3 if k <= 1 else 2, 'unquote_plus')
     up = mode != 0
     if not v.concrete:
         v.ctx.ghost['v'] = v
@@ -599,11 +602,17 @@ def _decode(v):
     joined = v.ctx.ghost.get('joined', [])
     if k + 1 >= 8:
         v.check('long-input-goes-through-a-joiner-with-the-same-tokens', len(joined) == 1 and len(joined[0]) == len(toks) and all(a is b for a, b in zip(joined[0], toks)))
-    v.cover('percent')
+    if all(l.endswith('=1') for l in v.ctx.labels if l.startswith('hex-pair')):
+        v.cover('percent')  # one satisfiability query per harness is enough for the canary
 
 
 for _k in range(9):
-    harness(PROP, M + ':decode', name='decode[percents=%d]' % _k, setup=_decode_setup, fix={'percents': _k})(_decode)
+    if _k < 5:
+        harness(PROP, M + ':decode', name='decode[percents=%d]' % _k, setup=_decode_setup, fix={'percents': _k})(_decode)
+    else:  # split further for the worker pool
+        for _m in (0, 1):
+            harness(PROP, M + ':decode', name='decode[percents=%d,unquote_plus=%s]' % (_k, bool(_m)), setup=_decode_setup,
+                    fix={'percents': _k, 'unquote_plus': _m})(_decode)
 
 
 # ---------------------------------------------------------------------------
